@@ -660,6 +660,7 @@ def main():
     # a leg that cannot be decided (front-end error, lost anchor, resource limit ...) does not stop the other legs: an execution of the real code
     # that fails (Kani harness, bounded stand-in) or a refuted obligation of another unit is still a violation; without one the run is undecided (exit 2)
     undecided = []
+    undecided_units = []
     for leg in cfg['legs']:
         try:
             if leg['engine'] in ('replay', 'python'):
@@ -674,6 +675,8 @@ def main():
                 legs.append(info)
         except Undecided as e:
             undecided.append(str(e))
+            if leg['engine'] == 'verus':
+                undecided_units.append(leg['unit'])
     try:
         kani_res = run_kani(pid, seed, a.tier)
     except Undecided as e:
@@ -738,6 +741,21 @@ def main():
                 print('     %s %s | %s' % (w['label'] or '', w['origin'], w['text'][:140]))
         print('VIOLATION property=%s replay=%s%s' % (pid, path, '' if wit else ' no-failing-input-found'))
         rc = 1
+    if undecided_units and rc == 0:
+        # the obligations of a unit could not be generated on this tree (construct outside the extractor's grammar, contract text that no longer type-checks
+        # against the code, ...).  That alone is never an alarm; but the replay runner can still look for a concrete input on which the executable twin of
+        # the property fails against the real compiled code - such a witness is a violation, reported with the reason the proof could not be attempted.
+        pseudo = [{'obligation': '%s/(obligations not generated)' % u, 'full': '%s/(obligations not generated: %s)' % (u, '; '.join(undecided)[:300]), 'fn': None,
+                   'detail': {'message': 'the obligations of unit %s could not be generated on this tree: %s' % (u, '; '.join(undecided)[:600]), 'where': [], 'fn': None}} for u in undecided_units]
+        path = write_replay(pid, pseudo, legs, extra={'note': 'no obligation could be generated for the units named below (the proof text no longer matches the code); the replay runner searched the real code for a failing input'})
+        wit = witness_search(pid, pseudo, a.tier, seed, path)
+        if wit:
+            for f in pseudo:
+                print('undecided unit %s' % f['full'][:300])
+            print('VIOLATION property=%s replay=%s' % (pid, path))
+            notes.append('violation found by the replay runner on the real code after the proof could not be attempted: ' + '; '.join(undecided))
+            write_evidence(pid, a.tier, seed, t0, legs, notes, refuted=pseudo, new=pseudo, known=kf_report, kf_obl=kf_obl, bounded=bounded, kani=kani_res)
+            return 1
     if undecided and rc == 0:
         print('UNDECIDED property=%s: %s' % (pid, '; '.join(undecided)))
         write_evidence(pid, a.tier, seed, t0, [], notes, undecided='; '.join(undecided))
